@@ -83,7 +83,7 @@ def generate_indexed(family, index, rng, tier):
         return {"family": "sweep", "params": {"kinds": [kind, "pulse"], "busword": bw}, "waves": [w0, w1],
                 "sw": [[2, "w", "enable", 3], [tc, "w", "pending", 1], [tc + 12, "r", "pending"], [tc + 16, "w", "pending", 3]],
                 "ncyc": tc + 30, "offset": off}
-    n = rng.choice([1, 2, 3, 5, 8, 9, 12])
+    n = rng.choice([1, 2, 3, 4, 5, 6, 7, 8, 9, 11, 12, 13, 15, 17])
     bw = rng.choice([8, 32])
     kinds = [rng.choice(KINDS) for _ in range(n)]
     ncyc = rng.randint(80, 250)
@@ -91,7 +91,10 @@ def generate_indexed(family, index, rng, tier):
     sw, t = [], rng.randint(1, 6)
     while t < ncyc - 10:
         r = rng.random()
-        if r < 0.45:
+        if r < 0.08:
+            # a write to an offset of the manager's page that holds no register: nothing may change
+            sw.append([t, "w", rng.choice(["stray_a", "stray_b", "stray_c"]), rng.getrandbits(min(n, bw)) | 1])
+        elif r < 0.45:
             sw.append([t, "w", "pending", rng.getrandbits(n) if rng.random() < 0.7 else (1 << rng.randrange(n))])
         elif r < 0.7:
             sw.append([t, "w", "enable", rng.getrandbits(n)])
@@ -104,6 +107,16 @@ def generate_indexed(family, index, rng, tier):
         scn["params"]["kinds2"] = k2
         scn["waves2"] = [waveform(rng, ncyc, k) for k in k2]
         scn["sw2"] = [[t_ + 1, a, b_, *rest] for t_, a, b_, *rest in sw if b_ != "status"][:10]
+        # further managers on the same shared line (2 to 11 in all): one source each, enabled once, acknowledged now and then
+        more = []
+        for j in range(rng.choice([0, 0, 1, 3, 5, 6, 9])):
+            kj = [rng.choice(KINDS)]
+            swj, tj = [[2 + j % 3, "w", "enable", 1]], rng.randint(8, 40)
+            while tj < ncyc - 10:
+                swj.append([tj, "w", "pending", 1])
+                tj += rng.choice([9, 17, 40, 90])
+            more.append({"kinds": kj, "waves": [waveform(rng, ncyc, kj[0])], "sw": swj})
+        scn["more"] = more
     return scn
 
 
@@ -187,7 +200,8 @@ def run(scn):
     top = Module()
     managers = []
     for mi, (kinds, waves, sw) in enumerate([(p["kinds"], scn["waves"], scn["sw"])] +
-                                            ([(p["kinds2"], scn["waves2"], scn["sw2"])] if "kinds2" in p else [])):
+                                            ([(p["kinds2"], scn["waves2"], scn["sw2"])] if "kinds2" in p else []) +
+                                            [(x["kinds"], x["waves"], x["sw"]) for x in scn.get("more", [])]):
         ev, srcs = make_ev(kinds)
         top.submodules += ev
         bus = csr_bus.Interface(data_width=bw, address_width=14)
@@ -195,7 +209,8 @@ def run(scn):
         top.submodules += bank
         n = len(kinds)
         nw = -(-n // bw)
-        regmap = {"status": (0, nw), "pending": (nw, nw), "enable": (2 * nw, nw)}
+        regmap = {"status": (0, nw), "pending": (nw, nw), "enable": (2 * nw, nw),
+                  "stray_a": (3 * nw + 2, 1), "stray_b": (4 * nw + 1, 1), "stray_c": (8 * nw + 2 * nw, 1)}
         managers.append({"ev": ev, "srcs": srcs, "bus": bus, "regmap": regmap, "kinds": kinds, "waves": waves, "sw": sw, "n": n, "nw": nw})
     shared = None
     if len(managers) > 1:
